@@ -369,7 +369,8 @@ def run_shard(shard, tier, seed):
     for ci, cfg in enumerate(cfgs):
       lat = cfg[0]
       if model == "stream" and lat == 0: cfg = (0, cfg[1], cfg[2])
-      bound = (1 if tier == "quick" else 2) if ci == 0 or tier == "thorough" else 0
+      if tier == "quick": bound = 1 if ci == 0 else 0
+      else: bound = 2 if ci % 5 == 0 else 1          # 12 of the 60 configurations with two stall deviations, the others with one
       per_cfg.append(check_run(model, rs, cfg, bound, acc))
     # timing independence for a single port: the response contents must be the same under every configuration
     if len(rs) == 1 and len({frozenset(o) for o in per_cfg if o}) > 1:
@@ -412,5 +413,5 @@ def finish(acc, tier):
     rule="one execution = one (model, request streams, timing config, stall schedule) run on a fresh memory and checked for linearizability; "
          "non-trivial = request sets split over two ports (overlapping addresses, so the interleaving matters)",
     exhaustive=True, request_sets=int(acc.n["request_sets"]), sets_with_timing_dependent_interleaving=multi,
-    bounds=dict(alphabet=[n for n, _ in ALPHA], stall_deviation_bound=1 if tier == "quick" else 2, configs=[list(c) for c in configs(tier)]),
+    bounds=dict(alphabet=[n for n, _ in ALPHA], stall_deviation_bound="1 on the first configuration, 0 on the others" if tier == "quick" else "2 on every fifth configuration, 1 on the others", configs=[list(c) for c in configs(tier)]),
   )
